@@ -13,6 +13,7 @@ use util::*;
 mod c20;
 mod batch;
 mod c14;
+mod vm;
 mod c06;
 
 thread_local! {
@@ -73,6 +74,9 @@ fn main() {
             "batch" => batch::batch(r),
             "c05_weight_sum" => batch::c05_weight_sum(r),
             "c14" => c14::c14(r),
+            "c12_bytes" => vm::c12_bytes(r),
+            "c12_roundtrip" => vm::c12_roundtrip(r),
+            "c12_op" => vm::c12_op(r),
             "c06_mutations" => c06::c06_mutations(r),
             "c08" => c06::c08(r),
             "c14_votes" => c14::c14_votes(r),
